@@ -251,7 +251,19 @@ func lastLines(s string, n int) string {
 func fatalSite(stderr string) string {
 	for _, l := range strings.Split(stderr, "\n") {
 		if strings.HasPrefix(l, "fatal error:") || strings.HasPrefix(l, "runtime:") {
-			return strings.ReplaceAll(strings.TrimSpace(strings.TrimPrefix(l, "fatal error:")), " ", "_")
+			s := strings.ReplaceAll(strings.TrimSpace(strings.TrimPrefix(l, "fatal error:")), " ", "_")
+			// numbers (sizes, addresses) are not part of the identity of a fatal error
+			var b strings.Builder
+			for _, c := range s {
+				if c >= '0' && c <= '9' {
+					continue
+				}
+				b.WriteRune(c)
+			}
+			if i := strings.Index(b.String(), "cannot_allocate"); i > 0 {
+				return b.String()[:i] + "cannot_allocate"
+			}
+			return b.String()
 		}
 	}
 	return "unknown"
@@ -522,11 +534,15 @@ func minimise(eng engine, sc *Scenario, fp string, p *pool) (*Scenario, *Outcome
 	if !has(bestOut) {
 		return sc, bestOut, execs
 	}
-	deadline := time.Now().Add(150 * time.Second)
-	for improved := true; improved && execs < 8000 && time.Now().Before(deadline); {
+	deadline := time.Now().Add(60 * time.Second)
+	maxExecs := 2500
+	if strings.Contains(fp, "/hang/") || strings.Contains(fp, "/fatal/") {
+		maxExecs = 60 // every failing candidate costs a worker process
+	}
+	for improved := true; improved && execs < maxExecs && time.Now().Before(deadline); {
 		improved = false
 		for _, c := range eng.shrink(best) {
-			if execs >= 8000 || time.Now().After(deadline) {
+			if execs >= maxExecs || time.Now().After(deadline) {
 				break
 			}
 			o := run(c)
